@@ -220,3 +220,43 @@ Example c01_dirs_need_distinct_names :
   exists r1 r2, ~ dirs_equiv (D (fold_left merge [r1; r2] empty_report))
                              (D (fold_left merge [r2; r1] empty_report)).
 Proof. exact dirs_need_distinct_names. Qed.
+
+(* ---- round 3: the Go map of directory -> Rego version (Model/Version.v of C20: rules.RegoVersionFromVersionsMap
+   as a fold over the entries in the order the [range] happens to visit them) ----------------------------------- *)
+From Regal Require Import Model.VersionOrder Proofs.VersionOrder.
+
+(* Whatever order the map is ranged over in, the same version is selected for a file -- provided that no two
+   keys that match the file's directory and have the same RAW length carry different versions
+   ([ties_agree]: forall k1 v1 k2 v2, In (k1,v1) m -> In (k2,v2) m -> both match -> length k1 = length k2 -> v1 = v2).
+   Keys need not be clean or distinct as directories: "legacy" (from a .manifest) and "legacy/" (a project root)
+   are fine, the longer spelling wins in every order. *)
+Theorem c01_version_lookup_order_independent :
+  forall (m m' : vmap) (filename : str) (default : version),
+  Permutation m m' -> ties_agree (dir filename) m ->
+  version_from_map m filename default = version_from_map m' filename default.
+Proof. exact version_lookup_order_independent. Qed.
+Print Assumptions c01_version_lookup_order_independent.
+
+(* ... the proviso cannot be dropped: the keys "legacy/" (v0) and "/legacy" (v1) -- two project roots of equal
+   length naming one directory with contradicting versions -- are decided by the iteration order, in the code as it is
+   (observed on the real function too, see notes/C01.md; the check's workspaces keep [ties_agree]) *)
+Theorem c01_version_lookup_equal_length_tie_refuted :
+  exists m m' f, Permutation m m' /\ NoDup (map fst m) /\
+    version_from_map m f VUndef <> version_from_map m' f VUndef.
+Proof. exact version_equal_length_tie_refuted. Qed.
+Print Assumptions c01_version_lookup_equal_length_tie_refuted.
+
+(* ... and comparing the length of the NORMALISED key instead (NOT the code; class of seeded change C01-6) loses the
+   property on a map that satisfies the proviso: {"legacy" -> v1, "legacy/" -> v0} gives v0 or v1 depending on the
+   order, where the code gives v0 in both *)
+Theorem c01_version_lookup_normalised_length_refuted :
+  exists m m' f, Permutation m m' /\ NoDup (map fst m) /\ ties_agree (dir f) m /\
+    version_from_map_norm m f VUndef <> version_from_map_norm m' f VUndef /\
+    version_from_map m f VUndef = version_from_map m' f VUndef.
+Proof. exact version_normalised_length_refuted. Qed.
+Print Assumptions c01_version_lookup_normalised_length_refuted.
+
+Example c01_ties_agree_nonvacuous :
+  ties_agree (dir f_legacy_p) [(s_legacy, V1); ((s_legacy ++ [47])%N, V0)] /\
+  version_from_map [(s_legacy, V1); ((s_legacy ++ [47])%N, V0)] f_legacy_p VUndef = V0.
+Proof. exact ties_agree_nonvacuous. Qed.
